@@ -53,6 +53,9 @@ func c01init() {
 	add(log.RegisterLevel(-5, "NEG"))
 	add(log.RegisterLevel(math.MinInt32, "LOWEST"))
 	add(log.RegisterLevel(math.MaxInt32, "HIGHEST"))
+	// alias names for codes that are already taken: references spelled WARN and WARNING have equal lower bounds
+	add(log.RegisterLevel(400, "Warning"))
+	add(log.RegisterLevel(300, "audit"))
 }
 
 // c01reregister gives the user levels NOTICE and FINE another code (k-th alternative) and updates the harness's tables.
@@ -372,10 +375,10 @@ func c01Worker(w *W) {
 		if pv != nil {
 			w.Violate("C01:log-panic:"+c.Kind, fmt.Sprintf("a log call panicked under a %s configuration: %v\n%s", c.Kind, pv, trunc(st, 1500)), cs)
 		}
-		if pv == nil && ci%3 == 1 {
+		if pv == nil && ci%5 == 1 {
 			// the same routing question while 8 goroutines log events of DIFFERENT levels through the same logger at the same
 			// time (the rule is per event: whatever the fan-out keeps between events must not leak from one level to another)
-			const G, rounds = 8, 10
+			const G, rounds = 8, 6
 			plans := make([][]c01call, G)
 			for g := 0; g < G; g++ {
 				for rd := 0; rd < rounds; rd++ {
